@@ -32,6 +32,7 @@ var R *mon.Run
 
 type proofStats struct {
 	pruned, kept int
+	keptExotic int
 }
 
 // classify how a pruned-branch cell found in a proof differs from the one
@@ -103,6 +104,18 @@ func verifyProof(src string, proof []byte, orig *cell.Cell, wit map[string]any) 
 			return
 		}
 		seen[pair{p, o}] = true
+		if o.Exotic && p.Exotic && p.Type() == o.Type() && rbits.Equal(p.Bits, o.Bits) && len(p.Refs) == len(o.Refs) && p.Type() != cell.PrunedBranch {
+			// an exotic cell of the original (a library cell) kept as it is
+			st.kept++
+			st.keptExotic++
+			return
+		}
+		if o.Exotic && !p.Exotic {
+			wit["path"], wit["original_type"] = path, o.Type()
+			R.Violation("exotic-cell-lost-its-type@"+src, wit)
+			ok = false
+			return
+		}
 		if p.Exotic {
 			if p.Type() != cell.PrunedBranch {
 				wit["path"], wit["type"] = path, p.Type()
@@ -234,7 +247,31 @@ func proveU32(p *tboc.MerkleProver, root *tboc.Cell, key tboc.BitString) (dict.V
 	return dict.Value{Bits: rbits.UintBits(uint64(v), 32)}, proof, err
 }
 
+func libraryCell(r *mon.Rng) *cell.Cell {
+	var h cell.Hash
+	copy(h[:], r.Bytes(32))
+	return cell.NewLibrary(h)
+}
+
 var valKinds = []*valKind{
+	// the value references a library cell (an exotic cell that stays in the proof); such a tree exists only as a parsed BOC
+	{"Any-with-library-ref", func(r *mon.Rng, i, room int) dict.Value {
+		v := dict.Value{Bits: r.Bits(r.Intn(min(room, 100) + 1))}
+		if i%2 == 0 {
+			v.Refs = append(v.Refs, libraryCell(r))
+		} else {
+			v.Refs = append(v.Refs, cell.New(r.Bits(r.Intn(40)), false, libraryCell(r)))
+		}
+		return v
+	}, func(p *tboc.MerkleProver, root *tboc.Cell, key tboc.BitString) (dict.Value, []byte, error) {
+		v, proof, err := tlb.ProveKeyInHashmap[tlb.Any](p, root, key)
+		if err != nil {
+			return dict.Value{}, proof, err
+		}
+		c := tboc.Cell(v)
+		rc := bridge.FromTongo(&c)
+		return dict.Value{Bits: rc.Bits, Refs: rc.Refs}, proof, nil
+	}},
 	{"uint32", func(r *mon.Rng, i, room int) dict.Value { return dict.Value{Bits: r.Bits(32)} }, proveU32},
 	// every key carries the same value: equal leaves and sub-trees become one cell when the dictionary travels as a BOC
 	{"uint32-constant", func(r *mon.Rng, i, room int) dict.Value { return dict.Value{Bits: rbits.UintBits(0xC0FFEE, 32)} }, proveU32},
@@ -330,6 +367,11 @@ func mkWidth[K keyC]() *widthOps {
 				rc := bridge.FromTongo(&c)
 				return dict.Value{Bits: rc.Bits, Refs: rc.Refs}
 			}),
+			"Any-with-library-ref": decodeProofAs[K, tlb.Any](func(v tlb.Any) dict.Value {
+				c := tboc.Cell(v)
+				rc := bridge.FromTongo(&c)
+				return dict.Value{Bits: rc.Bits, Refs: rc.Refs}
+			}),
 		},
 	}
 }
@@ -393,6 +435,17 @@ func dictCase(idx int) {
 	shape := dict.Shapes[1+(idx/(len(widths)*len(valKinds))+idx)%(len(dict.Shapes)-1)] // never "empty"
 	n := w.n
 	keys := dict.GenKeys(r, n, shape, 300)
+	if idx%23 == 5 && n >= 64 {
+		// a comb: key i has only bit i set, so the path to the last keys forks at (almost) every one of
+		// up to 100 levels — deeper than any balanced dictionary of this size
+		shape = "comb"
+		keys = nil
+		for i := 0; i < n && i < 100; i++ {
+			k := make([]bool, n)
+			k[i] = true
+			keys = append(keys, k)
+		}
+	}
 	if len(keys) == 0 {
 		return
 	}
@@ -412,6 +465,9 @@ func dictCase(idx int) {
 		source = "reference-canonical"
 	}
 	via := mon.Pick(r, []string{"in-memory", "boc"})
+	if vk.name == "Any-with-library-ref" {
+		via = "boc"
+	}
 	var root *tboc.Cell
 	switch source {
 	case "tongo-encoded":
@@ -692,8 +748,34 @@ func dictCase(idx int) {
 func treeCase(idx int) {
 	r := R.Rng("tree", idx)
 	var rootRef *cell.Cell
-	kind := mon.Pick(r, []string{"random-dag", "random-dag", "random-dag", "chain", "wide", "single-cell"})
+	kind := mon.Pick(r, []string{"random-dag", "random-dag", "random-dag", "chain", "wide", "single-cell", "with-exotic-leaves", "deep-chain"})
 	switch kind {
+	case "with-exotic-leaves":
+		// ordinary cells over library cells: exotic cells (of level 0) that stay in the proof
+		var mk func(d int) *cell.Cell
+		mk = func(d int) *cell.Cell {
+			c := cell.New(r.Bits(r.Intn(60)), false)
+			for k := 0; k < r.Range(1, 3); k++ {
+				switch {
+				case d >= 3 || r.Chance(1, 3):
+					c.Refs = append(c.Refs, libraryCell(r))
+				default:
+					c.Refs = append(c.Refs, mk(d+1))
+				}
+			}
+			return c
+		}
+		rootRef = mk(0)
+	case "deep-chain":
+		// more than 32 steps between the root and the pruned position
+		rootRef = cell.New(r.Bits(8), false, cell.New(r.Bits(8), false), cell.New(r.Bits(9), false))
+		for i := 0; i < r.Range(33, 90); i++ {
+			if r.Bool() {
+				rootRef = cell.New(r.Bits(r.Intn(20)), false, rootRef, cell.New(r.Bits(7), false))
+			} else {
+				rootRef = cell.New(r.Bits(r.Intn(20)), false, cell.New(r.Bits(7), false), rootRef)
+			}
+		}
 	case "random-dag":
 		rootRef = gen.RandomDag(r, gen.DagOpts{Nodes: r.Range(2, 60), SmallBits: r.Chance(2, 3)})
 	case "chain":
@@ -708,6 +790,9 @@ func treeCase(idx int) {
 		return
 	}
 	via := mon.Pick(r, []string{"in-memory", "boc"})
+	if kind == "with-exotic-leaves" {
+		via = "boc"
+	}
 	var root *tboc.Cell
 	var err error
 	if via == "in-memory" {
